@@ -617,6 +617,8 @@ class Tape:
                     vm2[j] -= 4 * h
                     f2 = (self.eval_with({i: vp2.reshape(n.val.shape)}, root).sum() - self.eval_with({i: vm2.reshape(n.val.shape)}, root).sum()) / (8 * h)
                     trunc = abs(f2 - fd) if np.isfinite(f2) else np.inf  # ~ 15x the h^2 term of fd itself
-                if abs(fd - an) > atol + cancel + trunc + rtol * max(abs(fd), abs(an)):
+                # (factor 2: a jump inside the stencil - arctan2 across its branch cut - makes both
+                # difference quotients huge and proportional to 1/h; that is not a disagreement)
+                if abs(fd - an) > atol + cancel + 2 * trunc + rtol * max(abs(fd), abs(an)):
                     problems.append((i, j, float(fd), float(an)))
         return problems
